@@ -57,6 +57,31 @@ def fault_descs(rng, tier):
                     d = copy.deepcopy(base)
                     d["fun"]["bad"] = {"how": "region", "t": t, "val": val}
                     out.append(d)
+    # joint patterns: the objective and a constraint undefined on different (or on all) evaluations, so that the filter holds
+    # points whose objective is undefined next to points whose violation is undefined
+    pats = [None, {"how": "at", "idx": [1]}, {"how": "at", "idx": [2]}, {"how": "at", "idx": [1, 2]}, {"how": "from", "k": 1},
+            {"how": "from", "k": 2}, {"how": "from", "k": 3}, {"how": "allbut", "idx": [2]}, {"how": "from", "k": 9}]
+    for base in BASES + [{"x0": [0.0, 0.0], "fun": {"kind": "quad", "c": [1.0, 1.0], "w": [1.0, 1.0]},
+                          "constraints": [{"type": "nonlinear", "fun": {"kind": "plane", "c": [1.0, 1.0], "b": 1.0, "r": 1.0, "a": 1.0}, "lb": ["-inf"], "ub": [0.0]}],
+                          "options": {"maxfev": 60}}]:
+        js = [j for j, c in enumerate(base["constraints"]) if c["type"] in ("nonlinear", "dict")]
+        for pf in pats:
+            for pc in pats:
+                if pf is None and pc is None:
+                    continue
+                if (pf is not None and base.get("fun") is None) or (pc is not None and not js):
+                    continue
+                for val in (NAN, INF):
+                    if tier == "quick" and rng.random() > (0.3 if val != val else 0.06):
+                        continue
+                    d = copy.deepcopy(base)
+                    if pf is not None:
+                        d["fun"]["bad"] = dict(pf, val=val)
+                    if pc is not None:
+                        d["constraints"][js[0]]["fun"]["bad"] = dict(pc, val=NAN if val != val else -INF)
+                    if rng.random() < 0.4:
+                        d["callback_kind"] = "xk" if rng.random() < 0.5 else "ir"
+                    out.append(d)
     for d0 in DEGENERATE:
         out.append(copy.deepcopy(d0))
         d = copy.deepcopy(d0)
@@ -117,6 +142,9 @@ def extra(chk, verdicts):
             fail = "the result is not a well-formed OptimizeResult"
         elif s.get("nan_success"):
             fail = "a result with non-finite fun or maxcv is labelled successful"
+        elif isinstance(s.get("truth"), dict) and s["truth"].get("evaluated") and s["truth"].get("fun_ok") is False:
+            # the values reported to the user stay raw
+            fail = f"the reported fun {s['truth'].get('fun')!r} is not the raw value the objective returned at the returned point"
         elif s.get("success") and isinstance(s.get("truth"), dict) and s["truth"].get("evaluated") and \
                 s["truth"].get("true_maxcv") is not None and s["truth"]["true_maxcv"] != s["truth"]["true_maxcv"]:
             # the values reported must stay raw: a NaN returned by a constraint at the returned point IS a NaN maxcv
